@@ -70,6 +70,11 @@ CLAIMED = {
     "C17": ("S", "Every constraint graph on up to 5 vertices (edge presence solver-chosen), optional ternary constraint and several insertion orders is handed to the real pseudo-tree "
                  "builder and compared with the DFS-forest definition; exhaustive over the structures in the bound.",
             "Structural exploration (each path one graph). Bounded to n <= 5; the 'long chains up to thousands of variables' part of the property is NOT decided (only concrete chains <= 40 in thorough).", "4/C17", S),
+    "C18": ("S", "The real Messaging/InProcessCommunicationLayer/Discovery (and a real Agent whose _run loop is executed synchronously after clean_shutdown) are driven through "
+                 "every sequential history of posts/registration/next_msg/shutdown with SYMBOLIC message types: the heap comparisons fork on them and z3 decides, at every hand-over, "
+                 "lowest type first and FIFO per (sender, destination) among equal types; exactly-once and late-destination delivery are checked on every history.",
+            "PARTIAL: sequential histories only (<= 4/5 operations, <= 3/4 posts at agent level). The 'interleavings of posts from concurrent threads' part of the property is outside the claim: "
+            "no solver-based tool here models CPython thread switches.", "4/C18", S),
     "C19": ("S", "A real MessagePassingComputation is driven through every history of up to 6 (8) operations among receive/post/pause/resume/start chosen by the engine; "
                  "handled == received and sent == posted, in order, exactly once, on every history.",
             "Histories are sequences of concrete operations (no numeric symbolic input); re-injected priority-19 messages are modelled as handled before newer ones (what C18 establishes for the agent queue).", "4/C19", S),
